@@ -390,6 +390,14 @@ func buildCLI(c *engine.Ctx) string {
 	return bin
 }
 
+// Cleanup removes what a check run left outside its own temporary directories (the CLI binary built from /repo).
+func Cleanup() {
+	if cliBin != "" {
+		_ = os.RemoveAll(filepath.Dir(cliBin))
+		cliBin = ""
+	}
+}
+
 type cliResult struct {
 	Exit    int
 	Stdout  string
